@@ -26,7 +26,9 @@ static Fields gen(Tape &t) {
     switch (t.below(6)) {
       case 0: o.kind = 'X'; o.text = g_smalltext(t); o.arg = (int)t.below(4); break;                       // escape
       case 1: o.kind = 'U'; o.text = g_smalltext(t); o.arg = (int)t.below(8); break;                       // unescape
-      case 2: o.kind = 'Q'; o.text = g_smalltext(t); o.arg = (int)t.below(32); break;                      // dissect + compose
+      case 2: o.kind = 'Q'; o.text = g_smalltext(t); o.arg = (int)t.below(32);                            // dissect + compose
+        if (t.chance(1, 10)) { static const int lens[] = {1023, 1024, 1025, 2047, 2048, 2049, 2500, 4095, 4096, 4097}; o.text = "a=1&" + std::string((size_t)lens[t.below(10)], 'k') + (t.coin() ? "=v+%41" : ""); }  // sizes in characters vs bytes around stack-buffer / fast-path thresholds
+        break;
       case 3: o.kind = 'F'; o.text = g_smalltext(t); o.arg = (int)t.below(4); break;                       // filename conversions
       case 4: o.kind = 'T'; o.i = (int)t.below(8); o.arg = (int)t.below(40); break;                        // toString with capacity
       default: { o.kind = 'P'; u32s n = g_noise(t, false); for (char32_t c : n) if (c >= 1 && c <= 255) o.text += (char)c; }  // possibly invalid parse (error offset)
